@@ -88,10 +88,10 @@ Print Assumptions c14_refuted_gather.
 Print Assumptions c14_hypotheses_satisfiable.
 
 (* ---- the executable spec written from the property text holds of the model (Proofs/C14Spec.v), for all histories of
-   the covered sub-language outside the recorded mixed-kinds class *)
+   all operations except OpCustom, outside the recorded mixed-kinds class *)
 Require Import PV.Spec.SpecC07 PV.Spec.SpecC14 PV.Proofs.C07SpecRegs PV.Proofs.C14Spec.
 Require Export PV.Proofs.C14SpecPinned.
-Check c14_spec_model_partial : forall ops, dom14 ops = true ->
+Check c14_spec_of_model : forall ops, dom14 ops = true ->
   spec_c14 ops (run world0 ops) = true \/ known_c14 ops (run world0 ops) = true.
-Check c14_spec_strict_partial : forall ops, dom14 ops = true ->
+Check c14_spec_of_model_strict : forall ops, dom14 ops = true ->
   mixed_kinds_registered ops (run world0 ops) = false -> spec_c14 ops (run world0 ops) = true.
